@@ -237,6 +237,13 @@ func (p c18) expression(c *core.Ctx) {
 		pre, post = []string{"v", "pre-", "${s.x}:", ""}[c.Rng.Intn(4)], []string{"-post", "", "/${s.y}"}[c.Rng.Intn(3)]
 	}
 	tag := fmt.Sprintf("value:%q", pre+"#{"+e+"}"+post)
+	if pre == "" && post == "" && c.Rng.Intn(5) == 0 {
+		// the expression comes from the configuration (calc.e: "#{...}") and the tag merely quotes it: after
+		// substitution the tag reads like the one above and is evaluated like it
+		env.doc += fmt.Sprintf("calc:\n  e: %q\n", "#{"+e+"}")
+		tag = `value:"${calc.e}"`
+		c.Count("expressions_supplied_by_the_configuration", 1)
+	}
 	sub, _, _, status := modelResolve(e, env.tree)
 	preR, _, _, _ := modelResolve(pre, env.tree)
 	postR, _, _, _ := modelResolve(post, env.tree)
